@@ -32,6 +32,35 @@ impl TableBuffer {
         self.len as usize
     }
 
+    /// What the ingestion code relies on: no column has more values than the table has rows, and the
+    /// row indices of a sparse column are strictly increasing and below the table length.
+    pub fn validate(&self, table: &str) -> Result<(), String> {
+        for (name, column) in &self.columns {
+            match &column.data {
+                ColumnData::Sparse(data) => {
+                    check_sparse_indices(table, name, data.iter().map(|(i, _)| *i), data.len() as u32, self.len)
+                        .map_err(|e| e.to_string())?
+                }
+                ColumnData::SparseI64(data) => {
+                    check_sparse_indices(table, name, data.iter().map(|(i, _)| *i), data.len() as u32, self.len)
+                        .map_err(|e| e.to_string())?
+                }
+                data => {
+                    if data.len() as u64 > self.len {
+                        return Err(format!(
+                            "column {}.{} has {} values but the table has {} rows",
+                            table,
+                            name,
+                            data.len(),
+                            self.len
+                        ));
+                    }
+                }
+            }
+        }
+        Ok(())
+    }
+
     pub fn insert(&mut self, column_name: String, column: ColumnBuffer) {
         if self.len == 0 {
             self.len = column.data.len() as u64;
